@@ -122,7 +122,7 @@ func rulesC15(c *Ctx) {
 			sorted = mi.X
 		}
 		for _, a := range acq {
-			if !dominates(sortCall.Instr, a.Instr) {
+			if !dominates(sortCall.Instr, a.Instr) && !sortSkippedOnlyWhenTrivial(lockF, sortCall, sorted, a.Instr) {
 				okR1, why = false, "an acquisition is not dominated by the sort"
 			}
 			// the mutex comes from get(row.Name) with row an element of the sorted slice at an ascending index
@@ -313,49 +313,125 @@ func rulesC15(c *Ctx) {
 		return
 	}
 	n5 := 0
-	for _, ci := range CallsTo(runCmd, qualName(mark)) {
-		os := Origins(ci.Arg(0), FlowOpts{})
-		var list string
-		for _, o := range os {
+	// (list, mode) pairs handed to the marker: direct calls in Run or in a private helper of it, also
+	// when the two lists sit in a small table that a loop walks
+	type lockPair struct {
+		list string
+		mode ssa.Value
+		pos  token.Pos
+		ord  int // position in program/table order
+		ci   *CallInfo
+	}
+	var pairs []lockPair
+	listOf := func(v ssa.Value) string {
+		for _, o := range Origins(v, FlowOpts{LiftParams: 2}) {
 			if o.Kind == "field" && (strings.HasSuffix(o.Name, ".RLock") || strings.HasSuffix(o.Name, ".RWLock")) {
-				list = o.Name[strings.LastIndex(o.Name, ".")+1:]
+				return o.Name[strings.LastIndex(o.Name, ".")+1:]
 			}
 		}
-		if list == "" {
-			continue
+		return ""
+	}
+	tableElem := func(v ssa.Value) (*ssa.IndexAddr, int) {
+		ld, ok := v.(*ssa.UnOp)
+		if !ok {
+			return nil, -1
 		}
+		fa, ok := ld.X.(*ssa.FieldAddr)
+		if !ok {
+			return nil, -1
+		}
+		ia, ok := fa.X.(*ssa.IndexAddr)
+		if !ok {
+			return nil, -1
+		}
+		return ia, fa.Field
+	}
+	for _, g := range append([]*ssa.Function{runCmd}, reachableSamePkg(runCmd, 2)...) {
+		for _, ci := range CallsTo(g, qualName(mark)) {
+			if l := listOf(ci.Arg(0)); l != "" {
+				pairs = append(pairs, lockPair{l, ci.Arg(2), ci.Pos(), len(pairs), ci})
+				continue
+			}
+			ia0, f0 := tableElem(ci.Arg(0))
+			ia2, f2 := tableElem(ci.Arg(2))
+			if ia0 == nil || ia2 == nil || ia0.X != ia2.X {
+				continue
+			}
+			// rows of the table: constant-index stores into the two fields
+			type row struct{ keys, mode ssa.Value }
+			rows := map[int64]*row{}
+			for _, r := range *ia0.X.Referrers() {
+				ia, ok := r.(*ssa.IndexAddr)
+				if !ok {
+					continue
+				}
+				k, isC := constInt(ia.Index)
+				if !isC {
+					continue
+				}
+				for _, rr := range *ia.Referrers() {
+					fa, ok := rr.(*ssa.FieldAddr)
+					if !ok {
+						continue
+					}
+					for _, r3 := range *fa.Referrers() {
+						if st, ok := r3.(*ssa.Store); ok && st.Addr == ssa.Value(fa) {
+							if rows[k] == nil {
+								rows[k] = &row{}
+							}
+							if fa.Field == f0 {
+								rows[k].keys = st.Val
+							}
+							if fa.Field == f2 {
+								rows[k].mode = st.Val
+							}
+						}
+					}
+				}
+			}
+			for k, rw := range rows {
+				if rw.keys == nil || rw.mode == nil {
+					continue
+				}
+				if l := listOf(rw.keys); l != "" {
+					pairs = append(pairs, lockPair{l, rw.mode, ci.Pos(), int(k), ci})
+				}
+			}
+		}
+	}
+	for _, pr := range pairs {
 		n5++
-		v, isC := constBool(ci.Arg(2))
+		v, isC := constBool(pr.mode)
 		want := lockR
-		if list == "RWLock" {
+		if pr.list == "RWLock" {
 			want = lockRW
 		}
-		c.Check(isC && v == want, "R5", "pip:run "+list+" list mode", ci.Pos(), fmt.Sprintf("passed with %v", want), "the "+list+" list is marked with the wrong access mode — readers exclude each other or writers share")
+		c.Check(isC && v == want, "R5", "pip:run "+pr.list+" list mode", pr.pos, fmt.Sprintf("passed with %v", want), "the "+pr.list+" list is marked with the wrong access mode — readers exclude each other or writers share")
 	}
 	c.Floor("R5", n5, 2)
 	// a name given in both lists must end up write-locked: the read list is applied first, the
 	// write list last (the marker overwrites), i.e. no read marking is reachable after a write marking
 	{
-		var rCalls, wCalls []*CallInfo
-		for _, ci := range CallsTo(runCmd, qualName(mark)) {
-			if v, isC := constBool(ci.Arg(2)); isC {
-				if v == lockRW {
-					wCalls = append(wCalls, ci)
-				} else {
-					rCalls = append(rCalls, ci)
-				}
-			}
-		}
 		bad := ""
-		for _, w := range wCalls {
-			for _, r := range rCalls {
-				if reachableFrom(w.Instr, r.Instr) && Origins(w.Arg(3), FlowOpts{})[0].Val == Origins(r.Arg(3), FlowOpts{})[0].Val {
-					bad = c.pos(r.Pos())
+		for _, w := range pairs {
+			for _, r := range pairs {
+				if w.list != "RWLock" || r.list != "RLock" {
+					continue
+				}
+				if w.ci == r.ci {
+					// rows of one table walked by one loop: the write row must come later
+					if w.ord < r.ord {
+						bad = c.pos(r.pos)
+					}
+					continue
+				}
+				if w.ci.Instr.Parent() == r.ci.Instr.Parent() && reachableFrom(w.ci.Instr, r.ci.Instr) && Origins(w.ci.Arg(3), FlowOpts{})[0].Val == Origins(r.ci.Arg(3), FlowOpts{})[0].Val {
+					bad = c.pos(r.pos)
 				}
 			}
 		}
-		if len(wCalls) > 0 && len(rCalls) > 0 {
-			c.Check(bad == "", "R5", "pip:run applies the write list after the read list", wCalls[0].Pos(), "write marking is last",
+		if len(pairs) >= 2 {
+			c.Check(bad == "", "R5", "pip:run applies the write list after the read list", pairs[0].pos, "write marking is last",
 				"the read list is marked at "+bad+" after the write list into the same map — a resource named in both lists ends up read-locked, so two tasks that asked to write it hold it together")
 		}
 	}
@@ -631,4 +707,68 @@ func feedsPhiOf(call *ssa.Call, v ssa.Value) bool {
 		return false
 	}
 	return rec(v, 0)
+}
+
+// sortSkippedOnlyWhenTrivial: the acquisition can be reached without the sort
+// only through the branch that skips it because the slice has at most one
+// element (if len(list) > 1 { sort }).
+func sortSkippedOnlyWhenTrivial(f *ssa.Function, sortCall *CallInfo, sorted ssa.Value, acq ssa.Instruction) bool {
+	sb := sortCall.Block
+	// the branch that guards the sort block
+	var guard *ssa.BasicBlock
+	var bypass *ssa.BasicBlock
+	for _, p := range sb.Preds {
+		if len(p.Instrs) == 0 {
+			continue
+		}
+		iff, ok := p.Instrs[len(p.Instrs)-1].(*ssa.If)
+		if !ok || len(p.Succs) != 2 {
+			continue
+		}
+		bo, ok := iff.Cond.(*ssa.BinOp)
+		if !ok {
+			continue
+		}
+		lc, ok := bo.X.(*ssa.Call)
+		if !ok {
+			continue
+		}
+		if b, ok := lc.Call.Value.(*ssa.Builtin); !ok || b.Name() != "len" || (lc.Call.Args[0] != sorted && keyP(lc.Call.Args[0]) != keyP(sorted) && !sameValue(lc.Call.Args[0], sorted)) {
+			continue
+		}
+		k, isC := constInt(bo.Y)
+		if !isC {
+			continue
+		}
+		// which successor means "more than one element"?
+		toSortWhenTrue := (bo.Op == token.GTR && k <= 1) || (bo.Op == token.GEQ && k <= 2) || (bo.Op == token.NEQ && false)
+		toSortWhenFalse := (bo.Op == token.LEQ && k <= 1) || (bo.Op == token.LSS && k <= 2)
+		switch {
+		case toSortWhenTrue && p.Succs[0] == sb:
+			guard, bypass = p, p.Succs[1]
+		case toSortWhenFalse && p.Succs[1] == sb:
+			guard, bypass = p, p.Succs[0]
+		}
+	}
+	if guard == nil {
+		return false
+	}
+	// without the bypass edge, can the acquisition still be reached while avoiding the sort block?
+	seen := map[*ssa.BasicBlock]bool{}
+	work := []*ssa.BasicBlock{f.Blocks[0]}
+	for len(work) > 0 {
+		b := work[len(work)-1]
+		work = work[:len(work)-1]
+		if seen[b] || b == sb {
+			continue
+		}
+		seen[b] = true
+		for _, sc := range b.Succs {
+			if b == guard && sc == bypass {
+				continue
+			}
+			work = append(work, sc)
+		}
+	}
+	return !seen[acq.Block()]
 }
